@@ -35,9 +35,10 @@ def aset : AMap → Id → Obj → AMap
   | [], i, o => [(i, o)]
   | (k, v) :: m, i, o => if k = i then (k, o) :: m else (k, v) :: aset m i o
 
+/-- `del d[i]` (keys are unique, so at most one entry goes) -/
 def adel : AMap → Id → AMap
   | [], _ => []
-  | (k, v) :: m, i => if k = i then m else (k, v) :: adel m i
+  | (k, v) :: m, i => if k = i then adel m i else (k, v) :: adel m i
 
 def akeys (m : AMap) : List Id := m.map Prod.fst
 
